@@ -297,8 +297,18 @@ Definition rparse_event (l : list tok) : rpev :=
   | _ => RPBad
   end.
 
+(* one logged event = one model event, except an atomic exchange of the shutdown flag, which is read as the load followed by the
+   store that MetricReader::Shutdown performs separately in the modelled code (an atomic exchange is a refinement of that pair) *)
+Definition rparse_events (l : list tok) : list rpev :=
+  match l with
+  | [TZ z; op; what; TZ a; TZ b] =>
+      if (0 <=? z) && is_tag "xchg" op && is_tag "shutdown" what && Z.eqb a 1
+      then [RPEv (rzn z) (RLdShut (rzb b)); RPEv (rzn z) RStShut]
+      else [rparse_event l]
+  | _ => [rparse_event l]
+  end.
 Definition rparse_trace (l : list tok) : list rpev :=
-  match l with [] => [] | _ => map rparse_event (split_toks ";" l) end.
+  match l with [] => [] | _ => flat_map rparse_events (split_toks ";" l) end.
 
 Inductive rverdict := RVOk (s : rst) | RVRej (i : nat).
 Fixpoint rreplay (s : rst) (tr : list rpev) (i : nat) : rverdict :=
